@@ -92,6 +92,40 @@ type childLine struct {
 	T   string         `json:"t"`
 	I   int            `json:"i,omitempty"`
 	Rec *core.Recorder `json:"rec,omitempty"`
+	D   string         `json:"d,omitempty"`
+}
+
+var goroutineHead = regexp.MustCompile(`^goroutine \d+ \[([^\]]*)\]:`)
+
+// deadlockSignature reads a dump of all goroutines taken when a case ran into its watchdog. It answers with an
+// excerpt when the dump shows the engine deadlocked: at least one goroutine inside the engine has been waiting on a
+// lock (sync.Mutex, sync.RWMutex, sync.Cond, sync.WaitGroup: a "sync." or "semacquire" wait state) for a minute or
+// more, and no goroutine with engine frames is doing anything else (running, runnable, or waiting for something that
+// is not a lock). The runtime itself measures the waits (the "N minutes" in the goroutine header).
+func deadlockSignature(dump string) string {
+	stuck, busy := 0, 0
+	first := ""
+	for _, g := range strings.Split(dump, "\n\n") {
+		g = strings.TrimSpace(g)
+		m := goroutineHead.FindStringSubmatch(g)
+		if m == nil || !strings.Contains(g, "github.com/semihalev/twig.") {
+			continue
+		}
+		state := m[1]
+		lock := strings.HasPrefix(state, "sync.") || strings.HasPrefix(state, "semacquire")
+		if lock && strings.Contains(state, "minutes") {
+			stuck++
+			if first == "" {
+				first = g
+			}
+		} else if !lock {
+			busy++
+		}
+	}
+	if stuck > 0 && busy == 0 {
+		return fmt.Sprintf("%d goroutine(s) inside the engine waiting on a lock for a minute or more, none doing anything else; the first:\n%s", stuck, core.Trunc(first, 3000))
+	}
+	return ""
 }
 
 func child(args []string) {
@@ -174,6 +208,12 @@ func child(args []string) {
 		case <-done:
 		case <-time.After(time.Duration(*tmo) * time.Second):
 			emit(childLine{T: "hang", I: idx})
+			{
+				buf := make([]byte, 16<<20)
+				if sig := deadlockSignature(string(buf[:runtime.Stack(buf, true)])); sig != "" {
+					emit(childLine{T: "deadlock", I: idx, D: sig})
+				}
+			}
 			// dump goroutines for the record
 			syscall.Kill(os.Getpid(), syscall.SIGQUIT)
 			time.Sleep(2 * time.Second)
@@ -206,6 +246,7 @@ type shardResult struct {
 	rec       *core.Recorder
 	crashes   []crashInfo
 	hangs     []int
+	deadlocks map[int]string
 	raceLogs  []string
 	watchdog  bool
 	gaveUp    bool
@@ -217,6 +258,23 @@ type crashInfo struct {
 	stderr string
 	exit   string
 	oom    bool
+}
+
+// readDeadlocks: the cases of a child's output whose watchdog dump showed the engine deadlocked
+func readDeadlocks(path string, into map[int]string) {
+	f, err := os.Open(path)
+	if err != nil {
+		return
+	}
+	defer f.Close()
+	sc := bufio.NewScanner(f)
+	sc.Buffer(make([]byte, 1<<20), 1<<30)
+	for sc.Scan() {
+		var l childLine
+		if json.Unmarshal(sc.Bytes(), &l) == nil && l.T == "deadlock" {
+			into[l.I] = l.D
+		}
+	}
 }
 
 func readChildOut(path string) (summary *core.Recorder, lastBegin int, hang int, oom int) {
@@ -323,6 +381,10 @@ func runShard(bin, id, tier string, seed uint64, shard, n int, mode, tmpdir stri
 			}
 		}
 		summary, lastBegin, hang, oom := readChildOut(out)
+		if res.deadlocks == nil {
+			res.deadlocks = map[int]string{}
+		}
+		readDeadlocks(out, res.deadlocks)
 		if summary != nil {
 			// (the race detector makes the process exit with status 66 after a complete run)
 			res.rec = summary
@@ -470,6 +532,8 @@ func parent(args []string) int {
 	hashes := map[uint64]struct{}{}
 	var viols []core.Violation
 	violCount := 0
+	hangsConfirmed := 0
+	deadlocksReported := 0
 	broken := []string{}
 	rp, _ := p.(props.RaceProp)
 	hp, _ := p.(props.HangProp)
@@ -504,16 +568,33 @@ func parent(args []string) int {
 			violCount++
 		}
 		for _, h := range r.hangs {
-			if hp != nil && hp.HangIsViolation() {
-				// confirm alone with a 3x limit
+			if dl := r.deadlocks[h]; dl != "" && hp != nil && hp.HangIsViolation() {
+				// the dump taken at the watchdog shows the engine deadlocked: nothing to confirm
+				if deadlocksReported < 6 {
+					deadlocksReported++
+					viols = append(viols, core.Violation{Prop: id, Monitor: "deadlock", Sig: "deadlock",
+						What:   fmt.Sprintf("case did not terminate within %d s: goroutines inside the engine wait on its locks and none makes progress", caseTimeout),
+						Detail: dl, Seed: seed, Index: h, Tier: tier})
+					violCount++
+				}
+				continue
+			}
+			if hp != nil && hp.HangIsViolation() && hangsConfirmed < 6 {
+				// confirm alone, with three times the limit (at most 150 s: alone, on an otherwise idle machine, a case that
+				// has not finished by then is not coming back). Six confirmations are enough to report; further hangs count as inconclusive.
+				hangsConfirmed++
+				confirm := caseTimeout * 3
+				if confirm > 150 {
+					confirm = 150
+				}
 				out := filepath.Join(tmpdir, fmt.Sprintf("hang-%d.jsonl", h))
 				cmd := exec.Command(j.bin, "child", "-prop", id, "-tier", tier, "-seed", fmt.Sprint(seed), "-only", fmt.Sprint(h),
-					"-out", out, "-timeout", fmt.Sprint(caseTimeout*3))
+					"-out", out, "-timeout", fmt.Sprint(confirm))
 				cmd.Run()
 				_, _, hang2, _ := readChildOut(out)
 				if hang2 >= 0 {
 					viols = append(viols, core.Violation{Prop: id, Monitor: "hang", Sig: fmt.Sprintf("hang:%d", h),
-						What: fmt.Sprintf("case did not terminate within %d s (confirmed alone with %d s)", caseTimeout, caseTimeout*3),
+						What: fmt.Sprintf("case did not terminate within %d s (confirmed alone with %d s)", caseTimeout, confirm),
 						Seed: seed, Index: h, Tier: tier})
 					violCount++
 				} else {
